@@ -1725,6 +1725,12 @@ fn replay(r: &Value) -> ! {
         if let Some(v) = mixed_depth_case(g("da"), g("db"), g("only_a"), g("only_b"), g("both")) {
             found.entry(v.sig).or_insert(v.detail);
         }
+    } else if r["part"] == "protocol" {
+        let depth = r["depth"].as_u64().unwrap_or(0) as usize;
+        let (ha, hb) = (r["ha"].as_str().unwrap_or(""), r["hb"].as_str().unwrap_or(""));
+        for v in protocol_case(depth, ha, hb, r["pre"].as_u64().unwrap_or(0) as usize, r["agreed"].as_u64().unwrap_or(0) as usize, r["full"].as_bool().unwrap_or(false)).0 {
+            found.entry(v.sig).or_insert(v.detail);
+        }
     } else if r["part"] == "hash-sync" {
         let depth = r["depth"].as_u64().unwrap_or(0) as usize;
         let (ha, hb) = (r["ha"].as_str().unwrap_or(""), r["hb"].as_str().unwrap_or(""));
@@ -1922,6 +1928,96 @@ fn late_key_case(shared: usize, limit: usize, late: bool, writer: usize) -> Opti
         });
     }
     None
+}
+
+/// Part (f): the same two-node situations as `hash_sync_case` (plus `agreed` keys both sides hold alike), exchanged through
+/// the message API of `AntiEntropyManager` instead of `run_anti_entropy_sync`: node 1 receives node 0's digest
+/// (`process_peer_digest`), asks for the divergent buckets (`create_sync_request`; `full`: for everything), node 0 answers
+/// (`handle_sync_request`), node 1 applies the answer; then the same with the roles swapped. The limit cannot truncate.
+/// Afterwards both hold a merge of the prior values, the digests agree, and a further digest exchange reports "in sync".
+fn protocol_case(depth: usize, ha: &str, hb: &str, pre: usize, agreed: usize, full: bool) -> (Vec<Viol>, bool) {
+    let mut sim = MultiNodeSimulation::new(2, 0);
+    for n in 0..2 {
+        sim.nodes[n].anti_entropy.config.max_keys_per_sync = 1000;
+        sim.nodes[n].anti_entropy.config.merkle_tree_depth = depth;
+    }
+    for i in 0..agreed {
+        sim.nodes[0].replica_state.record_write(format!("m{i:02}"), SDS::from_str("v"), None);
+    }
+    let d = sim.nodes[0].drain_deltas();
+    sim.nodes[1].apply_remote_deltas(d);
+    apply_hop(&mut sim, 0, ha);
+    apply_hop(&mut sim, 1, hb);
+    let (d0, d1) = (sim.nodes[0].drain_deltas(), sim.nodes[1].drain_deltas());
+    match pre {
+        1 => sim.nodes[0].apply_remote_deltas(d1),
+        2 => sim.nodes[1].apply_remote_deltas(d0),
+        _ => {}
+    }
+    let prior0 = sim.nodes[0].replica_state.replicated_keys.get("h").cloned();
+    let prior1 = sim.nodes[1].replica_state.replicated_keys.get("h").cloned();
+    let scenario = format!(
+        "message protocol, depth {depth}, {agreed} agreed keys, {}: node0 [{ha}] node1 [{hb}] on key h; before the exchange {}; prior node0 = {} prior node1 = {}",
+        if full { "full-state request" } else { "request for the divergent buckets" },
+        ["nothing was delivered", "node1's deltas reached node0, node0's were lost", "node0's deltas reached node1, node1's were lost"][pre],
+        prior0.as_ref().map(canon_value).unwrap_or_else(|| "-".into()),
+        prior1.as_ref().map(canon_value).unwrap_or_else(|| "-".into())
+    );
+    let replay = json!({"part": "protocol", "depth": depth, "ha": ha, "hb": hb, "pre": pre, "agreed": agreed, "full": full});
+    let mut out = Vec::new();
+    let equal_prior = prior0.as_ref().map(canon_value) == prior1.as_ref().map(canon_value);
+    // one direction: `asker` learns `holder`'s digest and pulls
+    let pull = |sim: &mut MultiNodeSimulation, asker: usize, holder: usize| -> bool {
+        let (da, dh) = (sim.nodes[asker].generate_digest(), sim.nodes[holder].generate_digest());
+        let need = sim.nodes[asker].anti_entropy.process_peer_digest(dh, &da);
+        let Some(buckets) = need else { return false };
+        let holder_id = sim.nodes[holder].anti_entropy.replica_id;
+        let req = sim.nodes[asker].anti_entropy.create_sync_request(holder_id, da, if full { None } else { Some(buckets) }, 0);
+        let h = &mut sim.nodes[holder];
+        let resp = h.anti_entropy.handle_sync_request(req, &h.replica_state.replicated_keys);
+        sim.nodes[asker].apply_remote_deltas(resp.deltas);
+        true
+    };
+    let asked = pull(&mut sim, 1, 0);
+    if asked == equal_prior && agreed == 0 {
+        // with nothing else in the map: a request is made exactly when the two values differ
+        out.push(Viol {
+            sig: if asked { "protocol: digests of equal states reported divergent".to_string() } else { "protocol false in-sync: prior states differ but the digest exchange asks for nothing".to_string() },
+            detail: scenario.clone(),
+            replay: replay.clone(),
+        });
+        return (out, true);
+    }
+    if equal_prior {
+        return (out, false);
+    }
+    pull(&mut sim, 0, 1);
+    let merges: Vec<String> = match (&prior0, &prior1) {
+        (Some(a), Some(b)) => vec![canon_value(&a.merge(b)), canon_value(&b.merge(a))],
+        (Some(a), None) | (None, Some(a)) => vec![canon_value(a)],
+        (None, None) => vec![],
+    };
+    for n in 0..2 {
+        let got = sim.nodes[n].replica_state.replicated_keys.get("h").map(canon_value).unwrap_or_else(|| "-".into());
+        if !merges.contains(&got) {
+            out.push(Viol {
+                sig: "protocol: request/response in both directions leaves a side unmerged".into(),
+                detail: format!("{scenario}; after node1 pulled from node0 and node0 pulled from node1, node{n} holds {got}, the merge of the prior values is {}", merges.join(" or ")),
+                replay: replay.clone(),
+            });
+            return (out, true);
+        }
+    }
+    // the agreed keys are still what they were, on both sides
+    for i in 0..agreed {
+        let k = format!("m{i:02}");
+        let (a, b) = (sim.nodes[0].replica_state.replicated_keys.get(&k).map(canon_value), sim.nodes[1].replica_state.replicated_keys.get(&k).map(canon_value));
+        if a != b || a.is_none() {
+            out.push(Viol { sig: "protocol: an agreed key differs after the exchange".into(), detail: format!("{scenario}; key {k}: node0 {a:?} node1 {b:?}"), replay: replay.clone() });
+            return (out, true);
+        }
+    }
+    (out, true)
 }
 
 fn hash_sync_case(depth: usize, ha: &str, hb: &str, pre: usize) -> (Vec<Viol>, bool) {
@@ -2193,6 +2289,23 @@ fn main() {
             }
         }
     }
+    // ---- (f) the same situations through the request / response messages of AntiEntropyManager
+    let proto_items: Vec<(usize, usize, usize, usize, usize, bool)> = hash_items
+        .iter()
+        .flat_map(|(d, a, b, p)| [(0usize, false), (3, false), (3, true)].into_iter().map(move |(ag, full)| (*d, *a, *b, *p, ag, full)))
+        .collect();
+    let pres = par::par_map(&proto_items, |_, (d, a, b, p, ag, full)| protocol_case(*d, HOPS[*a], HOPS[*b], *p, *ag, *full));
+    let protocol_evaluated = pres.iter().filter(|r| r.1).count() as u64;
+    {
+        let mut seen = BTreeSet::new();
+        for (vs, _) in &pres {
+            for v in vs {
+                if seen.insert(v.sig.clone()) {
+                    rep.violation(v.sig.clone(), v.detail.clone(), v.replay.clone());
+                }
+            }
+        }
+    }
     // ---- (d) replicas with different merkle depths
     let mixed_items: Vec<(usize, usize, usize, usize, usize)> = [(8usize, 4usize), (4, 8), (8, 0), (0, 8), (1, 8), (8, 1), (2, 3), (12, 8)]
         .iter()
@@ -2336,6 +2449,8 @@ fn main() {
         "rule": "two replicas with different merkle_tree_depth ((8,4) (4,8) (8,0) (0,8) (1,8) (8,1) (2,3) (12,8)) x six key distributions (keys on one side only, on both with different values, a single key); after ONE run_anti_entropy_sync with a non-truncating limit every key holds the merge on both sides. Digest equality is not judged here: digests of different depths differ by construction"});
     coverage["new_key_next_to_more_agreed_keys_than_the_limit"] = json!({"cases": late_key_cases,
         "rule": "both replicas agree on 2/3/5/12 keys; max_keys_per_sync is set to 1/2/3; one more key that sorts after (or before) all of them and is alone in its bucket is written on either side: one exchange must bring it over"});
+    coverage["request_response_messages"] = json!({"cases": proto_items.len(), "cases_with_a_divergent_pair_exchanged": protocol_evaluated,
+        "rule": "the hash-sync situations (7 x 7 short histories of one key x one-sided delivery x depth 0/8) with 0 or 3 further keys both sides agree on, exchanged through process_peer_digest / create_sync_request (divergent buckets, or full state) / handle_sync_request / apply, then with the roles swapped: both sides hold a merge of the prior values, the agreed keys are untouched; with no other key a request is made exactly when the values differ"});
     coverage["hash_sync_after_one_sided_delivery"] = json!({"cases": hash_items.len(), "cases_with_a_divergent_pair_exchanged": hash_sync_evaluated,
         "rule": "key h: each node does one of [nothing, HSET f, HSET g, HSET f + HDEL f, HSET f + HSET g, SET, SET + DEL] through its real ShardReplicaState; before the exchange nothing / only node1's deltas / only node0's deltas were delivered; merkle depth 0 and 8; then ONE run_anti_entropy_sync with a non-truncating limit: both sides must hold a merge of the two prior values"});
     rep.finish(coverage, assumptions);
